@@ -4,6 +4,7 @@ import (
 	"bytes"
 	"fmt"
 	"reflect"
+	"runtime"
 	"strings"
 	"sync"
 	"testing"
@@ -418,16 +419,12 @@ func runRoundTrip(ctx *ev.Ctx, e *entry, c c04Case, want []byte) {
 func checkBytes(ctx *ev.Ctx, e *entry, data []byte, mustReject string) {
 	ref := refParse(e.k, data)
 	if ref.hazard {
-		switch {
-		case ref.hzMode == allocSlice && ref.hzCnt >= 1<<45:
-			// make() panics before allocating: safe to execute
-			ctx.Label("alloc:count-beyond-max-alloc")
-		case ref.hzMode == allocMap && ref.hzCnt >= 1<<42:
-			// the runtime ignores such a map size hint: safe to execute
-			ctx.Label("alloc:map-hint-ignored")
-		default:
-			// the decoder would try to allocate count*elemsize bytes (GBs): not executed
-			ctx.Label("alloc:hazard-skipped")
+		// A count far beyond what the input can hold. A decoder that hands it to make() either panics
+		// (count*elemsize > max alloc) or reserves count*elemsize bytes - possibly a fatal out-of-memory,
+		// which cannot be observed safely. So the allocation behaviour is measured on a probe: the same
+		// input with that count lowered to at most 2^18 (still unsatisfiable); only if the probe's
+		// allocation is in proportion to the input is the original executed.
+		if !probeAlloc(ctx, e, data, ref) {
 			return
 		}
 	}
@@ -499,6 +496,60 @@ func checkBytes(ctx *ev.Ctx, e *entry, data []byte, mustReject string) {
 	if re2 := encode(ctx, e, v2, "third"); !bytes.Equal(re2, re) {
 		ctx.Failf("%s: canonical encoding is not stable: %x vs %x", e.name, clip(re), clip(re2))
 	}
+}
+
+const probeCount = 1 << 18
+
+// probeAlloc decodes data with the unsatisfiable element count found by the reference parser
+// lowered to min(count, 2^18) and measures the heap bytes allocated. It reports whether the
+// original input may be executed.
+func probeAlloc(ctx *ev.Ctx, e *entry, data []byte, ref refResult) bool {
+	pc := ref.hzCnt
+	if pc > probeCount {
+		pc = probeCount
+	}
+	if uint64(len(data)-ref.hzOff-ref.hzW) >= pc {
+		ctx.Label("alloc:input-too-large-to-probe")
+		return false
+	}
+	var cb []byte
+	switch ref.hzW {
+	case 8:
+		cb = le(pc, 8)
+	case 3:
+		cb = append([]byte{0xFD}, le(pc, 2)...)
+	case 5:
+		cb = append([]byte{0xFE}, le(pc, 4)...)
+	case 9:
+		cb = append([]byte{0xFF}, le(pc, 8)...)
+	default:
+		ctx.Failf("harness: count of width %d", ref.hzW)
+	}
+	probe := append(append(append([]byte(nil), data[:ref.hzOff]...), cb...), data[ref.hzOff+ref.hzW:]...)
+	var m0, m1 runtime.MemStats
+	var err error
+	runtime.ReadMemStats(&m0)
+	p := ev.Catch(func() { _, _, err = e.dec(probe) })
+	runtime.ReadMemStats(&m1)
+	if p != "" {
+		ctx.Failf("%s: decoder panicked on %x: %s", e.name, clip(probe), p)
+	}
+	if err == nil {
+		ctx.Failf("%s: decoder accepted %x although it announces %d elements in %d remaining bytes", e.name, clip(probe), pc, len(data)-ref.hzOff-ref.hzW)
+	}
+	delta := m1.TotalAlloc - m0.TotalAlloc
+	limit := 8*pc + 64<<10 + 16*uint64(len(data))
+	if delta > limit {
+		if ctx.Known("unbounded-make:"+e.name,
+			"%s.Deserialization allocates in proportion to an element count read from the input, not to the input: %d-byte input %x announces %d elements; "+
+				"with the count lowered to %d the decoder allocated %d bytes before rejecting (the original count would reserve ~%d x that, or panic in make)",
+			e.name, len(data), clip(data), ref.hzCnt, pc, delta, ref.hzCnt/pc) {
+			ctx.Label("known:unbounded-make")
+		}
+		return false
+	}
+	ctx.Label("alloc:probe-proportionate")
+	return true
 }
 
 // runPeerMismatch only classifies (DESIGN C04 note): PeerPoolMap sorts by the item's PeerPubkey,
